@@ -158,7 +158,6 @@ func RunOne(t *testing.T, h Harness, prop, tier string, sc any, cfg simrt.Config
 	simlog.Verbosity = 0
 	if prop == "C12" && seed%3 == 0 {
 		simlog.Verbosity = 2
-		res.Faults["verbose-logging-on"]++
 	}
 	defer func() { simlog.Verbosity = 0 }()
 	raceBefore := simrt.RaceErrors()
@@ -299,6 +298,9 @@ func runBubble(t *testing.T, h Harness, prop, tier string, sc any, cfg simrt.Con
 			}
 			res.Viol = x.Viol
 			res.Faults = x.Faults
+			if simlog.Verbosity > 0 {
+				res.Faults["verbose-logging-on"]++
+			}
 			res.Probes = x.Probes
 			res.NonTrivial = x.NonTrivial
 			res.Obligations = x.Obligations
